@@ -3,6 +3,7 @@ package props
 import (
 	"crypto/x509"
 	"encoding/hex"
+	"encoding/json"
 	"errors"
 	"fmt"
 	"math/big"
@@ -55,6 +56,25 @@ func c12Scenarios(c *core.Ctx) []namedScenario {
 			x.Body = []byte(strings.Replace(string(x.Body), `"signature":"`, `"signature":"00`, 1))
 			sc.Resp[tcbURL] = x
 		}})
+		// responses with a member removed (a decoder that merges into what an earlier call left
+		// behind would keep the earlier value)
+		dropMember := func(url, member string) func(sc *Scenario) {
+			return func(sc *Scenario) {
+				x := sc.Resp[url]
+				var m map[string]json.RawMessage
+				if json.Unmarshal(x.Body, &m) == nil {
+					delete(m, member)
+					x.Body, _ = json.Marshal(m)
+				}
+				sc.Resp[url] = x
+			}
+		}
+		out = append(out, namedScenario{"tcb info without its signature member", w, dropMember(tcbURL, "signature")})
+		out = append(out, namedScenario{"tcb info without its tcbInfo member", w, dropMember(tcbURL, "tcbInfo")})
+		out = append(out, namedScenario{"qe identity without its signature member", w, dropMember(qeURL, "signature")})
+		out = append(out, namedScenario{"qe identity without its enclaveIdentity member", w, dropMember(qeURL, "enclaveIdentity")})
+		out = append(out, namedScenario{"tcb info body {}", w, func(sc *Scenario) { x := sc.Resp[tcbURL]; x.Body = []byte("{}"); sc.Resp[tcbURL] = x }})
+		out = append(out, namedScenario{"qe identity body {}", w, func(sc *Scenario) { x := sc.Resp[qeURL]; x.Body = []byte("{}"); sc.Resp[qeURL] = x }})
 		out = append(out, namedScenario{"leaf revoked", w, func(sc *Scenario) {
 			crl, _ := world.MakeCRL(r, w.PKI.Inter, nil, baseTime.Add(-time.Hour), baseTime.Add(time.Hour), 9)
 			_ = crl
@@ -125,7 +145,7 @@ func c12Scenarios(c *core.Ctx) []namedScenario {
 }
 
 func C12(c *core.Ctx) {
-	c.Rule = "every generated world (honest and with one injected fault: mutated quote, foreign root, each endpoint down / garbage, broken collateral signature, revoked leaf, expired, OutOfDate platform, Processor-CA chain, an expired embedded root whose re-issue is trusted, a leaf shipped with the other CA's certificate) under all four option combinations with a recording getter: verdict monotonicity, no fetch without collateral, CRL endpoints only with revocation, TCB-Info URL names the FMSPC and PCK-CRL URL the issuing CA, fetch failures reported as typed errors; histories of 2..5 verifications (different quotes and settings, nil and explicit time sets, certificates expiring between calls) through one shared options value compared with fresh options. non-trivial = every case; distinct = distinct (world, fault, options) / histories"
+	c.Rule = "every generated world (honest and with one injected fault: mutated quote, foreign root, each endpoint down / garbage, broken collateral signature, collateral responses with a member removed or empty, revoked leaf, expired, OutOfDate platform, Processor-CA chain, an expired embedded root whose re-issue is trusted, a leaf shipped with the other CA's certificate) under all four option combinations with a recording getter: verdict monotonicity, no fetch without collateral, CRL endpoints only with revocation, TCB-Info URL names the FMSPC and PCK-CRL URL the issuing CA, fetch failures reported as typed errors; every faulty world right after the honest call about the same platform through one options value; histories of 2..5 verifications (different quotes and settings, nil and explicit time sets, certificates expiring between calls) through one shared options value compared with fresh options. non-trivial = every case; distinct = distinct (world, fault, options) / histories"
 	scs := c12Scenarios(c)
 	combos := []struct{ col, crl bool }{{false, false}, {true, false}, {true, true}, {false, true}}
 	for _, ns := range scs {
@@ -213,6 +233,48 @@ func C12(c *core.Ctx) {
 // histories: a shared *verify.Options across several verifications vs fresh options.
 func c12Histories(c *core.Ctx, scs []namedScenario) {
 	r := c.Rng
+	// every faulty scenario right after the honest call about the same platform, on one options value
+	for _, ns := range scs {
+		if ns.mut == nil {
+			continue
+		}
+		for _, crl := range []bool{false, true} {
+			if !c.Wanted() {
+				c.Add(&core.Case{Class: "history-pair", SkipModel: true, Impl: core.Ls()})
+				continue
+			}
+			run := func(o *verify.Options, mut func(*Scenario)) (error, any) {
+				sc := scenarioFromWorld(ns.w, true, crl)
+				sc.Resp = cloneResp(sc.Resp)
+				if mut != nil {
+					mut(sc)
+				}
+				o.GetCollateral, o.CheckRevocations, o.Getter = true, crl, &world.Getter{Resp: sc.Resp}
+				pool := x509.NewCertPool()
+				for _, cert := range sc.Roots {
+					pool.AddCert(cert)
+				}
+				o.TrustedRoots = pool
+				n := *sc.Now
+				o.Now = &n
+				var err error
+				pan := safely(func() { err = verify.RawTdxQuote(sc.Raw, o) })
+				return err, pan
+			}
+			shared := &verify.Options{}
+			e0, p0 := run(shared, nil)
+			es, ps := run(shared, ns.mut)
+			ef, pf := run(&verify.Options{}, ns.mut)
+			gt := ""
+			switch {
+			case p0 != nil || ps != nil || pf != nil:
+				gt = "panic in a two-call history"
+			case (es == nil) != (ef == nil):
+				gt = fmt.Sprintf("%s: verdict through an options value that first verified the honest quote of the same platform (%v) differs from a fresh one (%v)", ns.name, es, ef)
+			}
+			c.Add(&core.Case{Class: "history-pair", Desc: fmt.Sprintf("honest (%v) then %s, crl=%v: shared=%v fresh=%v", e0 == nil, ns.name, crl, es == nil, ef == nil), SkipModel: true, Impl: core.Ls(), GT: gt, NonTrivial: true})
+		}
+	}
 	n := c.Scale(25, 400)
 	for h := 0; h < n; h++ {
 		if !c.Wanted() {
